@@ -106,17 +106,18 @@ def obsVerdict (S : Schema) (dflt : Bool) (x y : List DNode) : String :=
   else "same"
 
 /-- `apply` with the error type of this component -/
-def applyD (S : Schema) (data d : List DNode) : Except DiffErr (List DNode) :=
-  match apply S data d with
+def applyD (S : Schema) (fx : Fixes) (data d : List DNode) : Except DiffErr (List DNode) :=
+  match apply S data d fx with
   | .ok r => .ok r
   | .error e => .error (DiffErr.ofA e)
 
 /-- law 1: the reversed diff of (A, B) applied to B -/
-def reverseApply (S : Schema) (dflt : Bool) (A B : List DNode) : Except DiffErr (List DNode) :=
-  (reverse S (diff S dflt A B)).bind (applyD S B)
+def reverseApply (S : Schema) (dflt : Bool) (A B : List DNode) (fx : Fixes := {}) : Except DiffErr (List DNode) :=
+  (reverse S (diff S dflt A B)).bind (applyD S fx B)
 
 /-- law 2: the merge of diff(A, B) and diff(B, C) applied to A -/
-def mergeApply (S : Schema) (dflt : Bool) (o : MergeOpts) (A B C : List DNode) : Except DiffErr (List DNode) :=
-  (mergeDiff o S (diff S dflt A B) (diff S dflt B C)).bind (applyD S A)
+def mergeApply (S : Schema) (dflt : Bool) (o : MergeOpts) (A B C : List DNode) (fx : Fixes := {}) :
+    Except DiffErr (List DNode) :=
+  (mergeDiff o S (diff S dflt A B) (diff S dflt B C)).bind (applyD S fx A)
 
 end LyModel.Diff
